@@ -47,6 +47,12 @@ def apply_scenarios(rng, n):
                         o['dur']['map'][k] = rng.choice([0.25, 0.3, 0.4])
                     o['cb_dur'] = rng.choice([0.5, 1.0])
         sc = {'seed': rng.randint(0, 10 ** 6), 'pool': pool, 'ops': ops}
+        if ops[0].get('join_first') and rng.random() < .5:
+            # the workers are kept when the pool is joined, and the pool is ended right afterwards (as by leaving the with-block): no
+            # result may be lost on the way — also when the results handler is slow to pick them up
+            ops[0]['join_first'] = rng.choice(['keep_alive', 'keep_alive_then_terminate', 'keep_alive_then_terminate'])
+            if rng.random() < .7:
+                sc['rules'] = [{'role': 'results_handler', 'op': 'q.get', 'obj': 'rq', 'sleep': rng.choice([0.1, 0.5]), 'p': rng.choice([0.5, 1.0])}]
         if rng.random() < .4 and any(o.get('task_timeout') for o in ops):
             # let completions race with the timeout scan
             for o in ops:
